@@ -35,7 +35,7 @@ func checkC17(c *core.Check) {
 	newCase := func() string { caseN++; return fmt.Sprintf("c%d", caseN) }
 	nItems := 60
 	if thorough {
-		nItems = 600
+		nItems = 250
 	}
 	si := 0
 	for _, global := range []aspec.Sec{{K: "none"}, {K: "list", List: [][]string{{"A"}}}, {K: "list", List: [][]string{{"B"}}}} {
